@@ -24,6 +24,8 @@ DECIDED_MORE = ('Also: stores into the application object / router / routing tre
 DECIDED = DECIDED + ' ' + DECIDED_MORE
 DECIDED_R6 = ('Round 6: emit iterates a snapshot; shared error objects are read-only on the rendering path; per-request __init__ stores only into per-thread slots.')
 DECIDED = DECIDED + ' ' + DECIDED_R6
+DECIDED_R7 = ('Round 7: request.copy() takes only the copied environ and the configuration from the original.')
+DECIDED = DECIDED + ' ' + DECIDED_R7
 NOT_DECIDED = ('user handler code; C-level atomicity of dict/list operations (assumed); equality of each response with the one '
                'served alone is implied by confinement only for framework state, not proved for arbitrary handlers.')
 ASSUMPTIONS = ['builtin container operations are atomic under the GIL', 'threading.local gives each thread its own attributes',
